@@ -570,9 +570,15 @@ def method_model(it, obj, name):
         if f is None:
             raise Unsupported(f"dict.{name} on a symbolic dict slot")
         return ModelFn(f"dict.{name}", lambda it2, a, k, _o=obj, _f=f: _f(it2, _o, a, k))
+    if type(obj).__name__ == "CompList":
+        if name == "extend":
+            return ModelFn("complist.extend", lambda it2, a, k, _o=obj: _o.extra.append(a[0]))
+        raise Unsupported(f"list.{name} on a comprehension over symbolic dicts")
     if isinstance(obj, SymList):
         if name == "pop":
             return ModelFn("symlist.pop", lambda it2, a, k, _o=obj: symlist_pop(it2, _o, a))
+        if name == "append":
+            return ModelFn("symlist.append", lambda it2, a, k, _o=obj: _o.appended(lift(ops.force(a[0]))[1]))
         raise Unsupported(f"list.{name} on a list of symbolic length")
     if isinstance(obj, LazyMap):
         raise Unsupported(f"list.{name} on lazily mapped list")
@@ -689,9 +695,15 @@ def s_join(it, t, a, k):
         return ops.mk("str", lb.join_parts(t, parts))
     if isinstance(v, SymList):
         n = z3.simplify(v.len_t)
-        if z3.is_int_value(n):
-            return ops.mk("str", lb.join_parts(t, [v.elem(i) for i in range(n.as_long())]))
-        raise Unsupported("join over a list of symbolic length")
+        if not z3.is_int_value(n):
+            # fork on the (small) length
+            K = 8
+            conds = [n == i for i in range(K + 1)] + [z3.Or(n < 0, n > K)]
+            kk = it.ctx.choose(conds, labels=[f"len={i}" for i in range(K + 1)] + ["longer"], site="join")
+            if kk > K:
+                raise Unsupported("join over a list of more than 8 symbolic elements")
+            n = z3.IntVal(kk)
+        return ops.mk("str", lb.join_parts(t, [z3.simplify(v.elem(i)) for i in range(n.as_long())]))
     raise Unsupported("join over this iterable")
 
 
